@@ -53,7 +53,7 @@ Definition tspan (h:heap) (t:positive) : span := match get h t with Some c => as
 Definition kind_of (r:res) : N :=
   match r with
   | inr _ => 0 | inl (VInt _) => 1 | inl (VBool _) => 2 | inl (VStr _) => 3 | inl (VList _) => 4 | inl (VDict _) => 5
-  | inl (VFun _) => 6 | inl (VIO _) => 7 | inl (VErr _ _) => 8 | inl VNil => 9 | inl (VThunk _) => 10 | inl (VBytes _) => 11 | inl (VFloat _) => 12 end%N.
+  | inl (VFun _) => 6 | inl (VIO _) => 7 | inl (VErr _ _) => 8 | inl VNil => 9 | inl (VThunk _) => 10 | inl (VBytes _) => 11 | inl (VFloat _) => 12 | inl (VComplex _ _) => 13 end%N.
 
 (* ---------- one step of the current frame's coroutine, inside StackFrameBase.communicate ---------- *)
 Inductive fstep :=                                       (* what communicate() hands back to evaluate() *)
